@@ -272,6 +272,33 @@ def run(chk, facts, tier, only=None):
         cs = [x["m"] for x in method_calls(ht["body"], r"^(value_arg_with_type|value_arg|serialize_to_vec)$")]
         chk.expect(set(cs) == {"value_arg_with_type", "serialize_to_vec"}, "typed-encode:entry", f"to_bytes_with_types must encode every argument through value_arg_with_type; calls {cs}")
 
+    def variant_hint():
+        # decoding a variant into an untyped value: variant_seed tells the visitor which accessor to use (`unit` / `struct` / `newtype`) and
+        # then unit_variant / struct_variant / newtype_variant test self.expect_type.  Hint and test must look at the same type value — if
+        # the hint is computed from a resolved type while the accessor compares the type as written (or vice versa), a payload type that
+        # is a *name* for null / a record gets an accessor that then rejects it.
+        h = c.method(r"de::Compound", "variant_seed", r"EnumAccess$")
+        chk.analysed(h["key"])
+        assigned = None
+        for n in walk(h["body"]):
+            if n.get("k") == "assign" and (expr_path(n["a"]) or "").endswith("de.expect_type"):
+                b = unblock(n["b"])
+                if b.get("k") == "mcall" and b["m"] == "clone":
+                    assigned = expr_path(b["recv"])
+        hints = []
+        for m in nodes(h["body"], "match"):
+            lits = [lit_value(a["body"]) for a in m["arms"]]
+            if "unit" in lits:
+                sc = unblock(m["scrut"])
+                hints.append(expr_path(sc["recv"]) if sc.get("k") == "mcall" and sc["m"] in ("as_ref", "deref") else expr_path(sc))
+        if assigned is None or len(hints) != 1:
+            raise AnchorMissing(f"variant_seed: assignment of de.expect_type ({assigned}) or the accessor-hint match ({hints}) not found")
+        chk.expect(hints[0] == assigned, "variant-hint:same-type-as-accessor-test",
+                   f"variant_seed chooses the accessor hint from `{hints[0]}` but hands `{assigned}` to the accessors as the expected type: "
+                   f"unit_variant compares that expected type with `null` as written, so hint and test disagree for a payload type given by name "
+                   f"(a tag whose payload is a named alias of null fails to decode, or decodes to null below opt)",
+                   where=f"{h['span']['file']}:{h['span']['lo']}", ok_detail=f"both read `{assigned}`")
+
     def r4():
         h = c.fn(r"value::IDLValue::annotate_type_with_depth$")
         gets = [x for x in method_calls(h["body"], r"^get$") if "HashMap" in x.get("recv_ty", "")]
@@ -303,7 +330,12 @@ def run(chk, facts, tier, only=None):
                           ("C10.R1", "annotation accepts exactly the allowed (value, type) constructor pairs, in both parser modes", r1),
                           ("C10.R2", "value constructor / type / serializer / visitor rows agree", r2),
                           ("C10.R3", "variant index provenance; the annotated value is what gets serialised", r3),
-                          ("C10.R4", "record fields are looked up by label id", r4)):
+                          ("C10.R4", "record fields are looked up by label id", r4),
+                          ("C10.R6", "variant decoding into untyped values: accessor hint and accessor test read the same type", variant_hint)):
         if only and only != rid:
             continue
         chk.run_rule(rid, desc, fn)
+    if only is None:
+        import c03
+        chk.include(c03, "C03.R1", "C10.R7", facts)     # typed encoding writes the spec's opcodes ...
+        chk.include(c03, "C03.R2", "C10.R8", facts)     # ... and type-table references the reader reads back as the same index
